@@ -30,6 +30,9 @@ pub fn run_a_star(
         return Ok(SearchResult::default());
     }
 
+    // an origin outside the network is an error, not an empty result
+    si.directed_graph.get_vertex(&source)?;
+
     // context for the search (graph, search functions, frontier priority queue)
     let mut costs: InternalPriorityQueue<VertexId, ReverseCost> = InternalPriorityQueue::default();
     let mut traversal_costs: HashMap<VertexId, Cost> = HashMap::new();
